@@ -3,6 +3,7 @@
 mod driver;
 mod json;
 mod minimise;
+mod miri;
 mod plan;
 mod prng;
 mod simio;
@@ -38,6 +39,10 @@ pub fn crash_property(world: &str) -> &'static str {
     }
 }
 
+pub fn world_by_name(name: &str) -> &'static dyn World {
+    world(name)
+}
+
 fn world(name: &str) -> &'static dyn World {
     WORLDS
         .iter()
@@ -57,14 +62,30 @@ fn prop_static(name: &str) -> &'static str {
 }
 
 fn jobs_for(prop: &'static str, thorough: bool, scale: f64) -> (Vec<Job>, &'static str) {
-    let ask = Ask { prop, thorough };
+    let ask = Ask { prop, thorough, tiny: false };
     let mk = |w: &str, share: f64| {
         let world = world(w);
         Job {
             world,
             ask,
             runs: ((world.runs(ask) as f64) * share * scale).max(1.0) as u64,
+            exe: None,
+            first_index: 0,
+            label: "",
         }
+    };
+    // Thorough tier of C05: the same plans again under AddressSanitizer
+    // (binary built by ./check from the same sources with nightly).
+    let asan = |w: &str, runs: u64| -> Option<Job> {
+        let exe = std::env::var("VERIF_ASAN_EXE").ok()?;
+        Some(Job {
+            world: world(w),
+            ask,
+            runs: ((runs as f64) * scale).max(1.0) as u64,
+            exe: Some(std::path::PathBuf::from(exe)),
+            first_index: 0,
+            label: "asan-",
+        })
     };
     match prop {
         "C03" | "C04" | "C20" => (vec![mk("iovec", 1.0)], "exploration"),
@@ -74,13 +95,75 @@ fn jobs_for(prop: &'static str, thorough: bool, scale: f64) -> (Vec<Job>, &'stat
         "C13" => (vec![mk("threads", 1.0)], "exploration"),
         "C18" => (vec![mk("threads", 1.0)], "fault_enumeration"),
         "C14" | "C19" => (vec![mk("vtime", 1.0)], "exploration"),
-        "C05" => (vec![mk("iovec", 0.7), mk("codec", 0.6), mk("stream", 0.4)], "exploration"),
+        "C05" => {
+            let mut jobs = vec![mk("iovec", 0.7), mk("codec", 0.6), mk("stream", 0.4)];
+            if thorough {
+                jobs.extend(asan("iovec", 400_000));
+                jobs.extend(asan("codec", 1_000_000));
+                jobs.extend(asan("stream", 1_000_000));
+            }
+            (jobs, "exploration")
+        }
         "C10" => (vec![mk("iovec", 0.5), mk("codec", 0.4), mk("stream", 0.3), mk("longrun", 1.0)], "exploration"),
         "C17" => (vec![mk("iovec", 0.6), mk("codec", 0.6)], "exploration"),
         _ => {
             eprintln!("harness: no jobs for {}", prop);
             std::process::exit(2)
         }
+    }
+}
+
+/// Determinism protocol: for every world, the per-run event-log hashes of
+/// `n` runs must be identical (a) between two executions in separate
+/// processes and (b) between one process running all of them and four
+/// processes running a quarter each (what a different worker count does).
+fn selftest(n: u64) -> i32 {
+    let exe = std::env::current_exe().expect("current_exe");
+    let run = |world: &str, prop: &str, seed: u64, from: u64, to: u64| -> String {
+        let out = std::process::Command::new(&exe)
+            .args(["hashes", world, prop, &seed.to_string(), &from.to_string(), &to.to_string()])
+            .output()
+            .expect("harness: cannot spawn hashes");
+        String::from_utf8_lossy(&out.stdout).to_string()
+    };
+    let mut bad = 0;
+    for (world, prop, scale) in [("iovec", "C03", 1), ("codec", "C01", 4), ("stream", "C06", 4), ("threads", "C13", 2), ("threads", "C18", 1), ("vtime", "C19", 1), ("longrun", "C09", 0)] {
+        let n = if scale == 0 { 4 } else { n * scale };
+        for seed in [1u64, 20261004] {
+            let a = run(world, prop, seed, 0, n);
+            let b = run(world, prop, seed, 0, n);
+            let mut parts = String::new();
+            let q = n.div_ceil(4);
+            let handles: Vec<_> = (0..4u64)
+                .map(|k| {
+                    let exe = exe.clone();
+                    let (w, p) = (world.to_string(), prop.to_string());
+                    std::thread::spawn(move || {
+                        let out = std::process::Command::new(&exe)
+                            .args(["hashes", &w, &p, &seed.to_string(), &(k * q).to_string(), &((k + 1) * q).min(n).to_string()])
+                            .output()
+                            .expect("harness: cannot spawn hashes");
+                        String::from_utf8_lossy(&out.stdout).to_string()
+                    })
+                })
+                .collect();
+            for h in handles {
+                parts.push_str(&h.join().unwrap());
+            }
+            let lines = a.lines().count() as u64;
+            let ok = a == b && a == parts && lines == n;
+            println!("selftest determinism world={} prop={} seed={} runs={} repeat={} partition={}", world, prop, seed, lines, if a == b { "same" } else { "DIFFERENT" }, if a == parts { "same" } else { "DIFFERENT" });
+            if !ok {
+                bad += 1;
+            }
+        }
+    }
+    if bad > 0 {
+        println!("selftest FAILED: {} world/seed combinations are not deterministic", bad);
+        1
+    } else {
+        println!("selftest ok");
+        0
     }
 }
 
@@ -101,6 +184,7 @@ fn main() {
             let ask = Ask {
                 prop: prop_static(&args[3]),
                 thorough: args[4] == "thorough",
+                tiny: false,
             };
             let seed: u64 = args[5].parse().unwrap();
             let from: u64 = args[6].parse().unwrap();
@@ -108,6 +192,38 @@ fn main() {
             worker_main(w, ask, seed, from, to, Path::new(&args[8]), 3);
         }
         "exec1" => exec1_main(),
+        "miri-batch" => {
+            // miri-batch <world> <prop> <seed> <from> <to>: in-process execution of
+            // tiny plans, meant to run under `cargo +nightly miri run`.  Prints
+            // `RUN <i>` before each run so that the parent knows which plan a
+            // Miri report belongs to, and `DONE` at the end.
+            install_panic_hook();
+            let w = world(&args[2]);
+            let ask = Ask { prop: prop_static(&args[3]), thorough: false, tiny: true };
+            let seed: u64 = args[4].parse().unwrap();
+            let from: u64 = args[5].parse().unwrap();
+            let to: u64 = args[6].parse().unwrap();
+            let mut stats = Stats::default();
+            let mut bad = 0;
+            for i in from..to {
+                println!("RUN {}", i);
+                let plan = w.generate(seed, i, ask);
+                let o = w.execute(&plan, &mut stats);
+                for v in &o.violations {
+                    println!("FOUND {} {} {}", i, v.prop, v.inv);
+                    bad += 1;
+                }
+            }
+            println!("DONE ops={}", stats.ops_executed);
+            std::process::exit(if bad > 0 { 1 } else { 0 });
+        }
+        "miri-threads" => {
+            // miri-threads <seed>: hook-free std::thread workload on AtomicBaseTime,
+            // meant for `-Zmiri-many-seeds`: Miri's scheduler and weak-memory
+            // emulation supply the interleavings and the reads-from choices.
+            let seed: u64 = args.get(2).and_then(|s| s.parse().ok()).unwrap_or(0);
+            std::process::exit(w_threads::plain_threads_scenario(seed));
+        }
         "check" => {
             let prop = prop_static(&args[2]);
             let thorough = args.get(3).map(|s| s == "thorough").unwrap_or(false)
@@ -119,10 +235,25 @@ fn main() {
                 .and_then(|s| s.parse::<f64>().ok())
                 .unwrap_or(1.0);
             let (jobs, level) = jobs_for(prop, thorough, scale);
-            let report = run_check(prop, thorough, seed, workers, jobs, level, None);
+            // Thorough tier: secondary engines under Miri for C05 and C13.
+            let mut miri_report = None;
+            if thorough && matches!(prop, "C05" | "C13") && std::env::var("VERIF_NO_MIRI").is_err() {
+                match miri::run_for(prop, &verif_root(), seed, scale) {
+                    Ok(r) => miri_report = Some(r),
+                    Err(e) => {
+                        eprintln!("harness: {}", e);
+                        std::process::exit(2);
+                    }
+                }
+            }
+            let (extra, extra_lines, extra_violations) = match miri_report {
+                Some(r) => (Some(r.extra), r.lines, r.violations),
+                None => (None, Vec::new(), 0),
+            };
+            let report = run_check(prop, thorough, seed, workers, jobs, level, extra, extra_lines, extra_violations);
             std::process::exit(report.exit);
         }
-        "replay" => {
+        "replay" | "replay-inproc" => {
             install_panic_hook();
             let text = std::fs::read_to_string(&args[2]).unwrap_or_else(|e| {
                 eprintln!("harness: cannot read {}: {}", args[2], e);
@@ -132,6 +263,16 @@ fn main() {
                 eprintln!("harness: bad replay file: {}", e);
                 std::process::exit(2)
             });
+            if args[1] == "replay" {
+                match j.get("replay_with").and_then(|x| x.as_str()) {
+                    Some("miri") | Some("miri-threads") => std::process::exit(miri::replay(&verif_root(), &args[2], &j)),
+                    Some(exe) if std::path::Path::new(exe).exists() && std::env::current_exe().map(|c| c != std::path::Path::new(exe)).unwrap_or(true) => {
+                        let st = std::process::Command::new(exe).arg("replay").arg(&args[2]).status().expect("harness: cannot spawn replay");
+                        std::process::exit(st.code().unwrap_or(1));
+                    }
+                    _ => {}
+                }
+            }
             let plan = Plan::from_json(j.get("plan").unwrap_or(&j), WORLDS).unwrap_or_else(|e| {
                 eprintln!("harness: bad plan: {}", e);
                 std::process::exit(2)
@@ -164,6 +305,17 @@ fn main() {
             println!("VIOLATION property={} replay={}", v.prop, args[2]);
             std::process::exit(1);
         }
+        "selftest" => {
+            let n: u64 = args.get(2).and_then(|s| s.parse().ok()).unwrap_or(400);
+            std::process::exit(selftest(n));
+        }
+        "plan" => {
+            // plan <world> <prop> <seed> <index>: print the generated plan
+            let w = world(&args[2]);
+            let ask = Ask { prop: prop_static(&args[3]), thorough: false, tiny: false };
+            let plan = w.generate(args[4].parse().unwrap(), args[5].parse().unwrap(), ask);
+            println!("{}", J::obj().with("plan", plan.to_json()).pretty());
+        }
         "hashes" => {
             // hashes <world> <prop> <seed> <from> <to>: per-run log hashes (determinism protocol)
             install_panic_hook();
@@ -171,6 +323,7 @@ fn main() {
             let ask = Ask {
                 prop: prop_static(&args[3]),
                 thorough: false,
+                tiny: std::env::var("VERIF_TINY").is_ok(),
             };
             let seed: u64 = args[4].parse().unwrap();
             let from: u64 = args[5].parse().unwrap();
@@ -178,7 +331,7 @@ fn main() {
             let mut stats = Stats::default();
             for i in from..to {
                 let plan = w.generate(seed, i, ask);
-                let o = w.execute(&plan, &mut stats);
+                let o = execute_world(w, &plan, &mut stats);
                 println!("{} {:016x} {}", i, o.log_hash, o.violations.iter().map(|v| v.inv.clone()).collect::<Vec<_>>().join(","));
             }
         }
